@@ -36,6 +36,21 @@ def exit_with(v):
     return {"k": "exit", "var": v}
 
 
+def max_id_of(x):
+    """the largest identifier id that occurs in the program (the lineariser's fresh ids start right above it): tight, so
+    that a fresh id that is not strictly larger collides with a variable of the program"""
+    m = 0
+    if isinstance(x, dict):
+        for v in x.values():
+            m = max(m, max_id_of(v))
+    elif isinstance(x, list):
+        if len(x) == 2 and isinstance(x[0], str) and isinstance(x[1], int):
+            return x[1]
+        for v in x:
+            m = max(m, max_id_of(v))
+    return m
+
+
 def programs():
     out = []
     names = ['a', 'b', 'c']
@@ -45,7 +60,8 @@ def programs():
 
     def wrap(name, body, extra_defs=None):
         main = {"name": "main", "context": [ext(A), ext(B)], "body": {"k": "literal", "lit": 3, "var": C, "next": body}}
-        return {'name': name, 'prog': {"defs": [main] + (extra_defs or []), "types": TYPES, "max_id": 100}}
+        defs = [main] + (extra_defs or [])
+        return {'name': name, 'prog': {"defs": defs, "types": TYPES, "max_id": max_id_of(defs)}}
     # let + switch
     for (u1, u2) in combos2:
         for af in afters:
@@ -132,4 +148,26 @@ def programs():
                 mk_x = {"k": "let", "var": x, "ty": "Pair", "tag": "Tup", "args": [ext(A), ext(B)], "next": call}
                 body = mk_x if sibling == 'none' else {"k": "let", "var": y, "ty": "Pair", "tag": "Tup", "args": [ext(B), ext(C)], "next": mk_x}
                 out.append(wrap(f"switch-reuse/{''.join(live) or '-'}/{'last' if last else 'notlast'}/{sibling}", body, [g]))
+    # the variable with the LARGEST id of the whole program is the one that gets duplicated by the first renaming
+    h = {"name": "h", "context": [ext(V("x", 5)), ext(V("y", 6)), ext(V("z", 7))],
+         "body": uses([V("z", 7), V("x", 5), V("y", 6)], exit_with(V("y", 6)))}
+    for af in ([], ['m'], ['a', 'm']):
+        m = V("m", 90)
+        pool2 = dict(POOL, m=m)
+        body = {"k": "literal", "lit": 7, "var": m, "next": {"k": "call", "label": "h", "args": [ext(m), ext(m), ext(A)]}}
+        out.append(wrap(f"dup-max/call/{''.join(af) or '-'}", body, [h]))
+        x = V("x", 91)
+        p, q = V("p", 8), V("q", 9)
+        body = {"k": "literal", "lit": 7, "var": m,
+                "next": {"k": "let", "var": x, "ty": "Pair", "tag": "Tup", "args": [ext(m), ext(m)],
+                         "next": {"k": "switch", "var": x, "ty": "Pair",
+                                  "clauses": [{"xtor": "Tup", "context": [ext(p), ext(q)], "body": uses([q, p] + [pool2[v] for v in af], exit_with(p))}]}}}
+        out.append(wrap(f"dup-max/let/{''.join(af) or '-'}", body))
+        k, px, py = V("k", 10), V("px", 11), V("py", 12)
+        cl = [{"xtor": "ap", "context": [ext(px), ext(py)], "body": uses([py, px], exit_with(px))},
+              {"xtor": "other", "context": [], "body": exit_with(C)}]
+        body = {"k": "create", "var": k, "ty": "Fun2", "context": None, "clauses": cl,
+                "next": {"k": "literal", "lit": 7, "var": m,
+                         "next": uses([pool2[v] for v in af], {"k": "invoke", "var": k, "tag": "ap", "ty": "Fun2", "args": [ext(m), ext(m)]})}}
+        out.append(wrap(f"dup-max/invoke/{''.join(af) or '-'}", body))
     return out
